@@ -600,6 +600,54 @@ func C03(c *core.Ctx) {
 	}
 	c.Floor("R3.5", "chunked copy loops in std/encoding", nCopy, 1)
 
+	// ---- R3.6 the segmented reader steps over EVERY exhausted segment: a wire may hold
+	// empty segments, also several in a row (the no-copy encoder emits one for an empty
+	// content buffer). Every store that advances a WireReader's segment index inside a
+	// "current segment exhausted" test is in a loop (or is followed by a bounds test of the
+	// new segment before it is read).
+	{
+		nAdv := 0
+		for _, fn := range p.FuncsIn(core.ModPath + "/std/encoding") {
+			if core.FuncID(fn).Recv != "WireReader" || strings.HasSuffix(p.File(fn.Pos()), "_test.go") {
+				continue
+			}
+			core.Instrs(fn, func(in ssa.Instruction) {
+				fa, v, ok := storeToField(in, "WireReader", "seg")
+				if !ok {
+					return
+				}
+				b, isB := core.Strip(v).(*ssa.BinOp)
+				if !isB || b.Op != token.ADD {
+					return
+				}
+				if k, isC := core.ConstInt(b.Y); !isC || k != 1 {
+					return
+				}
+				_ = fa
+				// the advance follows a test "position at or past the end of the current segment"
+				exhausted := false
+				for _, pr := range in.Block().Preds {
+					if iff, okI := pr.Instrs[len(pr.Instrs)-1].(*ssa.If); okI {
+						if op, x, y, okC := core.Cmp(iff.Cond); okC && (op == token.GEQ || op == token.GTR || op == token.LSS || op == token.LEQ || op == token.EQL) {
+							_, isPos := core.FieldOf(core.StripConv(x), "pos")
+							_, isLen := core.LenOf(core.StripConv(y))
+							if isPos && isLen {
+								exhausted = true
+							}
+						}
+					}
+				}
+				if !exhausted {
+					return
+				}
+				nAdv++
+				c.Funcs[core.FuncName(fn)] = true
+				c.Decide(core.InLoop(in.Block()), "R3.6", "segment-advance-skips-all-exhausted:"+core.FuncName(fn), c.Pos(in), "the advance to the next segment is repeated while the segment is exhausted", core.FuncName(fn)+" steps over one exhausted segment only: with two empty segments in a row (or an empty one where the previous ends) the reader stays on an empty segment and the next read indexes out of range — ReadData on the wire MakeData produces for content Wire{payload, {}} panics")
+			})
+		}
+		c.Floor("R3.6", "segment advances behind an exhausted-segment test", nAdv, 1)
+	}
+
 	// ---- R3.2 primitive tables
 	encPk := p.Pkgs[core.ModPath+"/std/encoding"]
 	if encPk == nil {
